@@ -370,6 +370,8 @@ def py_lints(ctx, py, mods, only=None):
     py_stale_rows(ctx, py, mods, only=only)
     py_find_index(ctx, py, mods, only=only)
     py_default_independent(ctx, py, mods, only=only)
+    from . import lib_kind3
+    lib_kind3.py_slips(ctx, py, mods, only=only)
 
 
 TS_WRITERS_OK = {
